@@ -4,13 +4,13 @@ it as /verif/seeded/<ID>/ (patch.diff, demo.py, meta.json with what was run and 
 import json, os, re, shutil, subprocess, sys
 ids = sys.argv[1:] or ['C%02d' % i for i in range(1, 21)]
 for pid in ids:
-  src = '/tmp/mut_out/%s' % pid
+  src = os.environ.get('SEED_SRC', '/tmp/mut_out') + '/%s' % pid
   if not os.path.exists(os.path.join(src, 'patch.diff')):
     print(pid, 'no patch'); continue
   p = subprocess.run(['/verif/tools/try_mutation.sh', pid, os.path.join(src, 'patch.diff'), os.path.join(src, 'demo.py')],
                      stdout=subprocess.PIPE, stderr=subprocess.STDOUT, text=True)
   out = p.stdout
-  dst = '/verif/seeded/%s' % pid
+  dst = '/verif/seeded/%s%s' % (pid, os.environ.get('SEED_SUFFIX', ''))
   os.makedirs(dst, exist_ok=True)
   shutil.copy(os.path.join(src, 'patch.diff'), dst)
   shutil.copy(os.path.join(src, 'demo.py'), dst)
